@@ -192,6 +192,7 @@ class LocalMonitor:
         g['misdirected_ok'] = F
         g['inval_pending'] = F
         g['wrong_actual'] = F
+        g['reports_on_another_target'] = F   # an Ok / Invalidated whose subject is not the emitting target itself
         g['proc_left_at_exit'] = F    # the actor returned while a process it spawned was still running (nobody is left to stop it)
         g['env_inconsistent'] = F     # the environment changed the `actual` flag of a (dependency, kind) between two Ok messages
         for d in range(me):
@@ -215,6 +216,8 @@ class LocalMonitor:
                 inv = obs.get('recv', (me, ('Invalidated', kind, 't%d' % d)))
                 word[(d, kind)] = z3.If(ok_, T, z3.If(inv, F, w))
                 g2['word.%d.%s' % (d, kind)] = word[(d, kind)]
+        foreign = obs.any('emit', lambda key: key[0] == me and key[2][0] in ('Ok', 'Invalidated') and key[2][2] != mename)
+        g2['reports_on_another_target'] = z3.Or(g['reports_on_another_target'], foreign)
         sp = obs.get('spawn', me)
         if kindme != 'aggregate':
             g2['proc_left_at_exit'] = z3.Or(g['proc_left_at_exit'], z3.And(z3.Not(S2['alive.%d' % me]), S2['proc.%d' % me]))
